@@ -167,7 +167,8 @@ def check_case(ctx, case):
                 try:
                     want = P.rational_diff(ref_rat[0], ref_rat[1], var)
                     have = P.to_rational(rs)
-                    same, worst = P.same_function(have, want, rel_tol=Fraction(1, 10 ** 11))
+                    ra = P.to_rational_abs(s)
+                    same, worst = P.same_function(have, want, P.to_rational_abs(rs), P.rational_diff_abs(ra[0], ra[1], var), rel_tol=Fraction(1, 10 ** 11))
                     ctx.count("polynomial_identities_checked")
                     if worst > 0:
                         ctx.count("polynomial_identities_up_to_rounding")
